@@ -31,7 +31,9 @@ SHELLS = [('sh', '/bin/sh'), ('bash', '/bin/bash')]
 HOSTILE = ['$(touch PWNED)', '`touch PWNED`', "'; touch PWNED; '", '"; touch PWNED; "', "'$(touch PWNED)'", '"`touch PWNED`"',
            '\\$(touch PWNED)', "\\'; touch PWNED; \\'", '$HOME', '${PATH}', '$0', '$@', '$$', '~', '#x', 'a;b', 'a&b', 'a|b', 'a>PWNED',
            '?', '[a]', '{a,b}', 'a\tb', 'a\rb', '!', '!!', '-n', '-e', '--', '\\n', '%s', 'a\\', "it's a \\'test\\'", '\\\\\\',
-           "''", '""', "'\"'\"'", '$(a)', '`a`', '$((1+1))', 'a=b', ' a', 'a ', '\n', 'a\n', '\na', '\n\n', '* *']
+           "''", '""', "'\"'\"'", '$(a)', '`a`', '$((1+1))', 'a=b', ' a', 'a ', '\n', 'a\n', '\na', '\n\n', '* *',
+           # exactly one kind of special character each
+           'a `echo x` b', '`echo x`', '``', 'x`y', 'a $HOME b', '$x', 'a$', '$(echo x)', 'a "q" b', '"q"', 'x"y', 'a \\ b', 'x\\y', '\\', '\\\\', '\\a', "it's", "'q'"]
 UNICODE = ['é', 'naïve ✓', '日本語 テスト', 'Ünïcödé $HOME `a` \'q\' "q"', '😀 emoji\n🚀', 'a\u0301\u0300 combining', '\u00a0nbsp\u2003emsp',
            'עברית mixed ltr', '“smart” ‘quotes’', '\u2028line sep']
 
@@ -466,6 +468,28 @@ def prelude(combo):
                    'let lst%d = [7, {x = 1}, [2], "s %d", {y = "z"}, true];\n' % (i, i) if k == 'l' else '' for i, k in enumerate(combo))
 
 
+def scal(i, v):
+    return lit(v), v.encode(), [(b'--f%d' % i, False), (v.encode(), False)]
+
+
+def extras():
+    """Hand-made tuples (prelude, fields): a NON-EMPTY nested tuple whose field names collide with the outer ones (must not be flattened),
+    list flags with skipped items first / in the middle / last followed by more scalars."""
+    inner = 'let inner = {f0 = "in0", f1 = "in1", f2 = "in2", f3 = "in3"};\n'
+    tag = 'let tag = ["a", {s = 1}, "b c", ["x"], "it\'s"];\n'
+    tagp = lambda i: [(b'--f%d' % i, False), (b'a', False), (b'--f%d' % i, False), (b'b c', False), (b'--f%d' % i, False), (b"it's", False)]
+    ends = 'let ends = [{s = 1}, "a", ["x"], {t = 2}, "b", [1]];\n'
+    endsp = lambda i: [(b'--f%d' % i, False), (b'a', False), (b'--f%d' % i, False), (b'b', False)]
+    return [(inner, [scal(0, 'out0'), ('inner', None, []), scal(2, 'out2')]),
+            (inner, [('inner', None, []), scal(1, 'out1'), scal(2, 'out2')]),
+            (inner, [scal(0, 'out0'), scal(1, 'out1'), ('inner', None, [])]),
+            (inner, [('inner', None, [])]),
+            (tag, [scal(0, 'first'), ('tag', None, tagp(1)), scal(2, 'la st')]),
+            (tag, [('tag', None, tagp(0)), scal(1, 'after')]),
+            (ends, [scal(0, 'first'), ('ends', None, endsp(1)), scal(2, 'la st')]),
+            (ends + tag, [('ends', None, endsp(0)), ('tag', None, tagp(1)), scal(2, 'la st')])]
+
+
 def matches(got, pattern):
     """got == pattern with every optional element present or absent."""
     def go(i, j):
@@ -486,19 +510,18 @@ def standin_sh_field_order(tier, seed):
     maxf = 4 if tier == 'thorough' else 3
     combos = [c for k in range(0, maxf + 1) for c in itertools.product('sinlt', repeat=k)]
     bound = ('tuples of 0..%d fields over {string, int/bool/float, NULL, list with skipped items in the middle, nested non-empty tuple} in every order (%d), each as env tuple, flags tuple and '
-             'tuple inside exec args; + 11 layouts of the exec tuple (command/args/env in every order, args/env optional); read by /bin/sh (dash) and bash') % (maxf, len(combos))
+             'tuple inside exec args; + %d hand-made tuples (non-empty nested tuple whose field names collide with outer ones, list flags with skipped items first/middle/last); + 11 layouts of the exec tuple (command/args/env in every order, args/env optional); read by /bin/sh (dash) and bash') % (maxf, len(combos), len(extras()))
     W = Work()
     n = 0
     try:
         names, meta = [], []
-        for ci, combo in enumerate(combos):
-            fl = [field(k, i) for i, k in enumerate(combo)]
+        for ci, (pre, fl) in enumerate([(prelude(combo), [field(k, i) for i, k in enumerate(combo)]) for combo in combos] + extras()):
             tup = '{%s}' % ', '.join('f%d = %s' % (i, f[0]) for i, f in enumerate(fl))
             for fam, src in (('e', 'out env tup;\n'), ('f', 'out flags tup;\n'),
                              ('x', 'out exec {command = %s, args = ["first", tup, "la st"]};\n' % lit(W.pa))):
-                W.write('%s%d.ucg' % (fam, ci), prelude(combo) + 'let tup = %s;\n' % tup + src)
+                W.write('%s%d.ucg' % (fam, ci), pre + 'let tup = %s;\n' % tup + src)
                 names.append('%s%d.ucg' % (fam, ci))
-            meta.append((combo, fl, tup))
+            meta.append((pre, fl, tup))
         # layouts of the exec tuple itself
         parts = {'command': 'command = %s' % lit(W.pa), 'args': 'args = ["a 1", "a\'2"]', 'env': 'env = {E0 = "e 0", E1 = "e$1"}'}
         layouts = []
@@ -526,24 +549,24 @@ def standin_sh_field_order(tier, seed):
                         input=dict(source=src, expected=exp, observed=got, artifact=(W.read(art) or b'').decode('utf-8', 'replace'), how=how))
 
         # env: order / exactly-once on the text (`NAME=` at line starts), values and absence through the shells
-        for ci, (combo, fl, tup) in enumerate(meta):
+        for ci, (pre, fl, tup) in enumerate(meta):
             n += 1
             art = (W.read('e%d.env' % ci) or b'').decode('utf-8', 'replace')
-            got = re.findall(r'(?m)^(f\d+)=', art)
+            got = re.findall(r'(?m)^(\w+)=', art)          # (no value of this family contains a newline)
             exp = ['f%d' % i for i, f in enumerate(fl) if f[1] is not None]
             if got != exp:
-                return viol(prelude(combo) + 'let tup = %s;\nout env tup;' % tup, 'e%d.env' % ci, 'assignments to %s, each once, in this order' % exp, 'assignments to %s' % got, '`ucg build`, artifact text', 'text')
+                return viol(pre + 'let tup = %s;\nout env tup;' % tup, 'e%d.env' % ci, 'assignments to %s, each once, in this order' % exp, 'assignments to %s' % got, '`ucg build`, artifact text', 'text')
         for shname, shell in SHELLS:
             text = ''.join('( . ./e%d.env; printf \'%%s\\0\' %s ); printf \'%%s\\0\' \'%s\'\n' % (
                 ci, ' '.join('"${f%d-%s}"' % (i, UNSET) for i in range(maxf)), end) for ci in range(len(meta)))
             out, err, pw = W.sh(shell, text)
             recs = out.split(endb)
-            for ci, (combo, fl, tup) in enumerate(meta):
+            for ci, (pre, fl, tup) in enumerate(meta):
                 n += 1
                 got = words(recs[ci]) if ci < len(recs) else []
                 exp = [(fl[i][1] if i < len(fl) and fl[i][1] is not None else UNSET.encode()) for i in range(maxf)]
                 if got != exp:
-                    return viol(prelude(combo) + 'let tup = %s;\nout env tup;' % tup, 'e%d.env' % ci, 'f0..f%d = %s' % (maxf - 1, [w.decode() for w in exp]), 'f0..f%d = %s' % (maxf - 1, [w.decode('utf-8', 'replace') for w in got]),
+                    return viol(pre + 'let tup = %s;\nout env tup;' % tup, 'e%d.env' % ci, 'f0..f%d = %s' % (maxf - 1, [w.decode() for w in exp]), 'f0..f%d = %s' % (maxf - 1, [w.decode('utf-8', 'replace') for w in got]),
                                 '`ucg build`, then `. ./x.env; printf \'%%s\\0\' "${f0-%s}" ...` in %s' % (UNSET, shell), shname)
             if pw:
                 return viol('(batch)', 'e0.env', 'nothing executed', 'PWNED created', 'env artifacts sourced by %s' % shell, shname)
@@ -552,12 +575,12 @@ def standin_sh_field_order(tier, seed):
             text = ''.join('( eval "set -- $(cat ./f%d.txt)"; for a in "$@"; do printf \'%%s\\0\' "$a"; done ); printf \'%%s\\0\' \'%s\'\n' % (ci, end) for ci in range(len(meta)))
             out, err, pw = W.sh(shell, text)
             recs = out.split(endb)
-            for ci, (combo, fl, tup) in enumerate(meta):
+            for ci, (pre, fl, tup) in enumerate(meta):
                 n += 1
                 got = [norm_flag(w) for w in words(recs[ci])] if ci < len(recs) else []
                 pat = [p for f in fl for p in f[2]]
                 if not matches(got, pat):
-                    return viol(prelude(combo) + 'let tup = %s;\nout flags tup;' % tup, 'f%d.txt' % ci, 'argv: ' + show(pat) + '   ([..] optional)', 'argv: %s' % [w.decode('utf-8', 'replace') for w in got],
+                    return viol(pre + 'let tup = %s;\nout flags tup;' % tup, 'f%d.txt' % ci, 'argv: ' + show(pat) + '   ([..] optional)', 'argv: %s' % [w.decode('utf-8', 'replace') for w in got],
                                 '`ucg build`, then `eval "set -- $(cat x.txt)"; printf \'%%s\\0\' "$@"` in %s' % shell, shname)
             if pw:
                 return viol('(batch)', 'f0.txt', 'nothing executed', 'PWNED created', 'flags artifacts eval-ed by %s' % shell, shname)
@@ -568,13 +591,13 @@ def standin_sh_field_order(tier, seed):
             out, err, pw = W.sh(shell, text, flags=['-a'])
             recs = out.split(endb)
             how = '`ucg build`, then the script run by %s -a with a printer of argv/environment as command' % shell
-            for ci, (combo, fl, tup) in enumerate(meta):
+            for ci, (pre, fl, tup) in enumerate(meta):
                 n += 1
                 rec = parse_pa(recs[ci]) if ci < len(recs) else None
                 got = [norm_flag(w) for w in rec[1]] if rec else []
                 pat = [(b'first', False)] + [p for f in fl for p in f[2]] + [(b'la st', False)]
                 if not matches(got, pat):
-                    return viol(prelude(combo) + 'let tup = %s;\nout exec {command = "<printer>", args = ["first", tup, "la st"]};' % tup, 'x%d.sh' % ci, 'argv: ' + show(pat) + '   ([..] optional)',
+                    return viol(pre + 'let tup = %s;\nout exec {command = "<printer>", args = ["first", tup, "la st"]};' % tup, 'x%d.sh' % ci, 'argv: ' + show(pat) + '   ([..] optional)',
                                 'argv: %s' % [w.decode('utf-8', 'replace') for w in got], how, shname)
             for li, perm in enumerate(layouts):
                 n += 1
